@@ -674,7 +674,7 @@ theorem C10_suspense_released_when_idle (c : Cfg) (es : List Event)
     · exact absurd hp hpc
   have hl := (h.dr.r5 hwait).1
   have hn : nLive (run c es).aws = 0 := by
-    unfold nLive
+    unfold nLive liveReaders
     rw [List.length_eq_zero_iff, List.filter_eq_nil_iff]
     intro a ha
     obtain ⟨h1, h2, _⟩ := h.dc.aw a ha
@@ -732,63 +732,167 @@ theorem pollD_noReader (s : State) : (pollD s).noReader = s.noReader := by
     · exact (dLoop_noReader _ _).trans (applyResult_noReader _)
     · rfl
 
-/-- only a new reader under the boundary (`bread`, `attachS`) ends "no reader" -/
+theorem applyResult_liveReaders (s : State) : liveReaders (applyResult s).aws = liveReaders s.aws := by
+  simp only [applyResult]
+  split
+  · simp only [notifySubs_aws, postReads_aws]
+    exact nLive_wake s.aws
+  · rfl
+
+theorem fetchState_liveReaders (s : State) : liveReaders (fetchState s).aws = liveReaders s.aws := by
+  have hn : liveReaders (if s.isLocal = true then s.aws ++ [({ kind := .tick, tag := s.nf + 1 } : Aw)] else s.aws)
+      = liveReaders s.aws := by
+    split
+    · rw [show liveReaders (s.aws ++ [({ kind := .tick, tag := s.nf + 1 } : Aw)]) =
+        nLive s.aws + nLive [({ kind := .tick, tag := s.nf + 1 } : Aw)] from nLive_append _ _]
+      simp [nLive, liveReaders]
+    · rfl
+  rcases fetchState_cases s with ⟨_, _, _, _, heq⟩ | heq <;> rw [heq]
+  exact hn
+
+theorem chk_aws (s : State) : (chk s).1.aws = s.aws := by
+  simp only [chk, dNeedsRerun, smUpdate]
+  (repeat' split) <;> rfl
+
+theorem dIter_liveReaders (s : State) : liveReaders (dIter s).1.aws = liveReaders s.aws := by
+  rw [dIter_def]
+  split
+  · rfl
+  · split
+    · split
+      · exact (applyResult_liveReaders _).trans (fetchState_liveReaders s)
+      · exact fetchState_liveReaders s
+    · rw [chk_aws]
+
+theorem dLoop_liveReaders (n : Nat) (s : State) : liveReaders (dLoop n s).aws = liveReaders s.aws := by
+  induction n generalizing s with
+  | zero => rfl
+  | succ n ih =>
+    rw [dLoop]
+    split
+    · exact (ih _).trans (dIter_liveReaders s)
+    · exact dIter_liveReaders s
+
+theorem pollD_liveReaders (s : State) : liveReaders (pollD s).aws = liveReaders s.aws := by
+  unfold pollD
+  dsimp only
+  split
+  · split <;> exact dLoop_liveReaders _ _
+  · exact dLoop_liveReaders _ _
+  · split
+    · exact (dLoop_liveReaders _ _).trans (applyResult_liveReaders _)
+    · rfl
+
+/-- only a new reader under the boundary (`bread`, `attachS`) ends "no reader", and only a synchronous read
+spawns a task holding a handle of the boundary -/
 theorem step_noReader (s : State) (e : Event) (hb : e ≠ .bread) (ha : e ≠ .attachS)
-    (h : s.noReader = true) : (step s e).noReader = true := by
+    (h : s.noReader = true) :
+    (step s e).noReader = true ∧ liveReaders (step s e).aws ≤ liveReaders s.aws := by
   cases e with
-  | set i v => exact (setSrc_susp s i v).2.2.2.2.2.2.2.2.2.trans h
-  | refetch => exact (refetch_susp s).2.2.2.2.2.2.2.2.2.trans h
-  | manualSet v => simp only [step, manualSet, notifySubs_noReader]; exact h
-  | complete f => exact (complete_susp s f).2.2.2.2.2.2.2.2.2.trans h
-  | attach => exact h
+  | set i v =>
+    have hh := setSrc_susp s i v
+    exact ⟨hh.2.2.2.2.2.2.2.2.2.trans h, Nat.le_of_eq (congrArg liveReaders hh.2.1)⟩
+  | refetch =>
+    have hh := refetch_susp s
+    exact ⟨hh.2.2.2.2.2.2.2.2.2.trans h, Nat.le_of_eq (congrArg liveReaders hh.2.1)⟩
+  | manualSet v =>
+    simp only [step, manualSet, notifySubs_noReader, notifySubs_aws]
+    exact ⟨h, Nat.le_of_eq (nLive_wake s.aws)⟩
+  | complete f =>
+    have hh := complete_susp s f
+    exact ⟨hh.2.2.2.2.2.2.2.2.2.trans h, Nat.le_of_eq (congrArg liveReaders hh.2.1)⟩
+  | attach =>
+    refine ⟨h, Nat.le_of_eq ?_⟩
+    show liveReaders (s.aws ++ [({} : Aw)]) = liveReaders s.aws
+    rw [show liveReaders (s.aws ++ [({} : Aw)]) = nLive s.aws + nLive [({} : Aw)] from nLive_append _ _]
+    simp [nLive, liveReaders]
   | poll j =>
     simp only [step, pollNth]
     split
     · rename_i t _
       cases t
-      · show (pollT0 s).noReader = true
+      · show (pollT0 s).noReader = true ∧ liveReaders (pollT0 s).aws ≤ liveReaders s.aws
         unfold pollT0
-        split <;> exact h
-      · exact (pollD_noReader s).trans h
-      · exact ((eLoop_susp 4 { s with eWoken := false }).2.2.2.2.2.2.2.2.2).trans h
-      · exact h
-    · exact h
-  | get => exact h
+        split <;> exact ⟨h, Nat.le_refl _⟩
+      · exact ⟨(pollD_noReader s).trans h, Nat.le_of_eq (pollD_liveReaders s)⟩
+      · have hh := eLoop_susp 4 { s with eWoken := false }
+        exact ⟨hh.2.2.2.2.2.2.2.2.2.trans h, Nat.le_of_eq (congrArg liveReaders hh.2.1)⟩
+      · rename_i i _
+        refine ⟨h, ?_⟩
+        have := nLive_poll s.loading s.value s.aws i
+        show liveReaders (modifyAt (pollAw s.loading s.value) s.aws i) ≤ liveReaders s.aws
+        unfold nLive at this
+        omega
+    · exact ⟨h, Nat.le_refl _⟩
+  | get => exact ⟨h, Nat.le_refl _⟩
   | bread => exact absurd rfl hb
   | attachS => exact absurd rfl ha
-  | bdrop => rfl
+  | bdrop => exact ⟨rfl, Nat.le_of_eq (nLive_drop s.aws)⟩
 
 theorem foldl_noReader (s : State) (es : List Event) (hes : ∀ e ∈ es, e ≠ .bread ∧ e ≠ .attachS)
-    (h : s.noReader = true) : (es.foldl step s).noReader = true := by
+    (h : s.noReader = true) :
+    (es.foldl step s).noReader = true ∧ liveReaders (es.foldl step s).aws ≤ liveReaders s.aws := by
   induction es generalizing s with
-  | nil => exact h
+  | nil => exact ⟨h, Nat.le_refl _⟩
   | cons e es ih =>
     have he := hes e (by simp)
-    exact ih _ (fun x hx => hes x (by simp [hx])) (step_noReader s e he.1 he.2 h)
+    obtain ⟨h1, h2⟩ := step_noReader s e he.1 he.2 h
+    obtain ⟨h3, h4⟩ := ih _ (fun x hx => hes x (by simp [hx])) h1
+    exact ⟨h3, Nat.le_trans h4 h2⟩
 
-/-- F-C10-3 (= F-C04-5) repaired.  A boundary never waits on behalf of a reader that is gone: once every reader
-under the boundary has been disposed (`bdrop`: a `<Show>` closed, a row removed, a tab switched — the readers'
-owners are cleaned up, their awaiting futures dropped), then — whatever happened before, and whatever happens
-afterwards short of a NEW reader reading or awaiting the value under the boundary: writes, reloads,
-completions, polls in any order — the boundary's task list is empty, nothing is registered for the next run
-and the loop holds no task id.  Before the repair a later reload found the registration of the reader that
-was gone and made the boundary fall back (`C10_stale_registration_witness`). -/
+/-- F-C10-3 (= F-C04-5) repaired.  A boundary takes no part in a reload on behalf of readers that are gone:
+once every reader under the boundary has been disposed (`bdrop`: a `<Show>` closed, a row removed, a tab
+switched — the readers' owners are cleaned up, their awaiting futures dropped), then — whatever happened
+before, and whatever happens afterwards short of a NEW reader reading or awaiting the value under the
+boundary: writes, reloads, completions, polls in any order — nothing is registered for the next run, the loop
+holds no task id of the boundary, and the boundary's task list consists of nothing but the handles of
+synchronous reads made during a load that was in flight when the readers went (`liveReaders`: each is
+dropped when that load's `ready()` resolves; the server rendering of `<Suspense/>` depends on them outliving
+the owner they were made in) and never grows.  Before the repair a later reload found the registration of the
+reader that was gone and made the boundary fall back (`C10_stale_registration_witness`). -/
 theorem C10_suspense_forgets_dropped_readers (c : Cfg) (es es' : List Event)
     (hes : ∀ e ∈ es', e ≠ .bread ∧ e ≠ .attachS) :
-    (run c (es ++ .bdrop :: es')).pending = 0 ∧ (run c (es ++ .bdrop :: es')).susp = 0 ∧
-    (run c (es ++ .bdrop :: es')).idsHeld = 0 := by
-  have hn : (run c (es ++ .bdrop :: es')).noReader = true := by
+    (run c (es ++ .bdrop :: es')).susp = 0 ∧ (run c (es ++ .bdrop :: es')).idsHeld = 0 ∧
+    (run c (es ++ .bdrop :: es')).pending = liveReaders (run c (es ++ .bdrop :: es')).aws ∧
+    (run c (es ++ .bdrop :: es')).pending ≤ (run c (es ++ [.bdrop])).pending := by
+  have h0 : (run c (es ++ [.bdrop])).noReader = true := by
     unfold run
-    rw [List.foldl_append, List.foldl_cons]
-    exact foldl_noReader _ es' hes rfl
-  obtain ⟨h1, h2, h3, _⟩ := (SInv.run c (es ++ .bdrop :: es')).p4 hn
-  exact ⟨h1, h2, h3⟩
+    rw [List.foldl_append]
+    rfl
+  have hrun : run c (es ++ .bdrop :: es') = es'.foldl step (run c (es ++ [.bdrop])) := by
+    unfold run
+    rw [List.foldl_append, List.foldl_append]
+    rfl
+  obtain ⟨hn, hle⟩ := foldl_noReader _ es' hes h0
+  rw [← hrun] at hn hle
+  have hs := SInv.run c (es ++ .bdrop :: es')
+  have hs0 := SInv.run c (es ++ [.bdrop])
+  obtain ⟨h1, h2, _⟩ := hs.p4 hn
+  obtain ⟨_, h2', _⟩ := hs0.p4 h0
+  have hp := hs.p1
+  have hp0 := hs0.p1
+  unfold nLive at hp hp0
+  exact ⟨h1, h2, by omega, by omega⟩
+
+/-- ... in particular a reload that starts after the readers are gone goes unnoticed by the boundary: if its
+task list was empty when they went (no synchronous read was waiting for a load in flight), it stays empty -/
+theorem C10_suspense_reload_after_drop_unnoticed (c : Cfg) (es es' : List Event)
+    (hes : ∀ e ∈ es', e ≠ .bread ∧ e ≠ .attachS) (h0 : (run c (es ++ [.bdrop])).pending = 0) :
+    (run c (es ++ .bdrop :: es')).pending = 0 := by
+  have := (C10_suspense_forgets_dropped_readers c es es' hes).2.2.2
+  omega
 
 /-- ... and a boundary nothing has ever read under waits for nothing -/
 theorem C10_suspense_idle_without_readers (c : Cfg) (es : List Event)
     (hes : ∀ e ∈ es, e ≠ .bread ∧ e ≠ .attachS) : (run c es).pending = 0 := by
-  have hn : (run c es).noReader = true := foldl_noReader _ es hes (by simp [init])
-  exact ((SInv.run c es).p4 hn).1
+  obtain ⟨hn, hle⟩ := foldl_noReader (init c) es hes (by simp [init])
+  have hs := SInv.run c es
+  obtain ⟨_, h2, _⟩ := hs.p4 hn
+  have hp := hs.p1
+  have h0 : liveReaders (init c).aws = 0 := by simp [init, liveReaders]
+  unfold nLive at hp
+  unfold run at hp h2 ⊢
+  omega
 
 /-! ## the version test -/
 
@@ -871,7 +975,7 @@ held a task id of the boundary until it finished — the boundary fell back alth
 value any more; an awaiter (`attachS`) left the same registration; a reader disposed DURING a reload kept the
 id until the reload finished.  Now all three end with their reader. -/
 theorem C10_stale_registration_witness :
-    (runOld3 {} (c10DropEvents ++ .bdrop :: c10DropTail)).noReader = true ∧
+    (runOld3 {} (c10DropEvents ++ [.bdrop])).pending = 0 ∧
     (runOld3 {} (c10DropEvents ++ .bdrop :: c10DropTail)).pc = .fetching ∧
     (runOld3 {} (c10DropEvents ++ .bdrop :: c10DropTail)).pending = 1 ∧
     (run {} (c10DropEvents ++ .bdrop :: c10DropTail)).pc = .fetching ∧
@@ -886,12 +990,12 @@ theorem C10_stale_registration_witness :
     (runOld3 {} (c10DropEvents ++ c10DropTail)).pending = 1 ∧
     (run {} (c10DropEvents ++ c10DropTail)).pending = 1 := by decide
 
-/-- `C10_suspense_forgets_dropped_readers` was false of the code before repair 3 -/
+/-- `C10_suspense_reload_after_drop_unnoticed` was false of the code before repair 3 -/
 theorem C10_suspense_forgets_dropped_readers_old3_false :
     ¬ ∀ (c : Cfg) (es es' : List Event), (∀ e ∈ es', e ≠ .bread ∧ e ≠ .attachS) →
-        (runOld3 c (es ++ .bdrop :: es')).pending = 0 := by
+        (runOld3 c (es ++ [.bdrop])).pending = 0 → (runOld3 c (es ++ .bdrop :: es')).pending = 0 := by
   intro h
-  have := h {} c10DropEvents c10DropTail (by decide)
+  have := h {} c10DropEvents c10DropTail (by decide) C10_stale_registration_witness.1
   rw [C10_stale_registration_witness.2.2.1] at this
   exact absurd this (by decide)
 
